@@ -36,6 +36,7 @@ def main():
     ap.add_argument("--checks", default="")
     ap.add_argument("--tier", default="quick")
     ap.add_argument("--needs", default="")
+    ap.add_argument("--base", default="HEAD", help="commit of /repo the change was written against (default HEAD)")
     args = ap.parse_args()
     src = pathlib.Path(args.source)
     patch = (src / "patch.diff").read_text()
@@ -45,7 +46,8 @@ def main():
     wt = pathlib.Path(tempfile.mkdtemp(prefix="seedeval-"))
     wt.rmdir()
     meta = {"name": args.name, "breaks": args.property, "needs_to_manifest": args.needs, "confirmed": {}, "checks": {}}
-    code, out = sh(f"git -C /repo worktree add --detach {wt} HEAD -q")
+    code, out = sh(f"git -C /repo worktree add --detach {wt} {args.base} -q")
+    meta["base"] = args.base
     assert code == 0, out
     try:
         env = {**os.environ, "PYTHONPATH": str(wt), "PYTHONHASHSEED": "0"}
